@@ -59,14 +59,14 @@ pub proof fn lemma_extrap_right(s: real, x1: real, x0: real, t: real, y1: real, 
 ALLIN = 'forall|q: int| 0 <= q < tgt@.len() ==> in_range(x@, #[trigger] tgt@[q])'
 VALID_U = 'x@.len() == y@.len() && ((extrapolate is Panic) ==> (%s))' % ALLIN
 unchecked = Fn(I + 'interp1d_linear_unchecked', ret='r', level='L1', valid=VALID_U, attrs=['#[verifier::loop_isolation(false)]'],
-               requires=['C16.hyp.knots:: x@.len() >= 2', 'C16.hyp.machine:: x@.len() < usize::MAX', 'C16.hyp.increasing:: increasing(x@)'],
+               requires=['C16.hyp.knots:: x@.len() >= 2', 'C16.hyp.machine:: x@.len() < usize::MAX'],
                ensures=['C16.valid:: ' + VALID_U,
                         'C16.len:: r.v@.len() == tgt@.len()',
-                        'C16.value:: forall|q: int| 0 <= q < tgt@.len() ==> interp_ok(x@, y@, tgt@[q], extrapolate, #[trigger] r.v@[q])'],
+                        'C16.value:: increasing(x@) ==> forall|q: int| 0 <= q < tgt@.len() ==> interp_ok(x@, y@, tgt@[q], extrapolate, #[trigger] r.v@[q])'],
                panics={1: 'REJECT', 2: 'REJECT'},
                loops={
-                   1: {'invariant': ['n == x@.len()', 'n == y@.len()', 'k == tgt@.len()', 'n >= 2', 'increasing(x@)', 'interp.v@.len() == i',
-                                     'C16.value.sofar:: forall|q: int| 0 <= q < i ==> interp_ok(x@, y@, tgt@[q], extrapolate, #[trigger] interp.v@[q])',
+                   1: {'invariant': ['n == x@.len()', 'n == y@.len()', 'k == tgt@.len()', 'n >= 2', 'interp.v@.len() == i',
+                                     'C16.value.sofar:: increasing(x@) ==> forall|q: int| 0 <= q < i ==> interp_ok(x@, y@, tgt@[q], extrapolate, #[trigger] interp.v@[q])',
                                      '(extrapolate is Panic) ==> forall|q: int| 0 <= q < i ==> in_range(x@, #[trigger] tgt@[q])']},
                    2: {'invariant_except_break': ['idx == j'],
                        'invariant': ['n == x@.len()', 'n >= 2', '0 <= i < tgt@.len()', 'idx <= j', 'idx <= n - 1',
@@ -76,17 +76,17 @@ unchecked = Fn(I + 'interp1d_linear_unchecked', ret='r', level='L1', valid=VALID
                },
                hints=[('ExtrapolationMode::Fill(left, right) => {', 'after', 'proof { assert(left == extrapolate->Fill_0); assert(right == extrapolate->Fill_1); assert(typed(left)); assert(typed(right)); }'),
                       ('let ratio =', 'before', 'proof { lemma_lerp((rv(tgt@[i as int]) - rv(x@[idx - 1])) / (rv(x@[idx as int]) - rv(x@[idx - 1])), rv(y@[idx - 1]), rv(y@[idx as int])); }'),
-                      ('let slope = (y[1] - y[0]) / (x[1] - x[0]);', 'after', 'proof { lemma_extrap_left(rv(slope), rv(x@[0]), rv(tgt@[i as int]), rv(y@[0]), rv(y@[1]) - rv(y@[0]), rv(x@[1]) - rv(x@[0])); }'),
-                      ('let slope = (y[n - 1] - y[n - 2]) / (x[n - 1] - x[n - 2]);', 'after', 'proof { lemma_extrap_right(rv(slope), rv(x@[n - 1]), rv(x@[n - 2]), rv(tgt@[i as int]), rv(y@[n - 1]), rv(y@[n - 2])); }')],
+                      ('let slope = (y[1] - y[0]) / (x[1] - x[0]);', 'after', 'proof { if increasing(x@) { lemma_extrap_left(rv(slope), rv(x@[0]), rv(tgt@[i as int]), rv(y@[0]), rv(y@[1]) - rv(y@[0]), rv(x@[1]) - rv(x@[0])); } }'),
+                      ('let slope = (y[n - 1] - y[n - 2]) / (x[n - 1] - x[n - 2]);', 'after', 'proof { if increasing(x@) { lemma_extrap_right(rv(slope), rv(x@[n - 1]), rv(x@[n - 2]), rv(tgt@[i as int]), rv(y@[n - 1]), rv(y@[n - 2])); } }')],
                rewrites=[('return interp;', 'interp', 'R24: trailing `return e;` is the tail expression `e`')])
 
 SORTED = 'forall|p: int| 0 <= p < x@.len() - 1 ==> rv(x@[p + 1]) - rv(#[trigger] x@[p]) >= 0real'
 checked = Fn(I + 'interp1d_linear', ret='r', level='L1', attrs=['#[verifier::loop_isolation(false)]'],
              valid='x@.len() == y@.len() && (%s) && ((extrapolate is Panic) ==> (%s))' % (SORTED, ALLIN),
-             requires=['C16.hyp.knots:: x@.len() >= 2', 'C16.hyp.machine:: x@.len() < usize::MAX', 'C16.hyp.increasing:: increasing(x@)'],
+             requires=['C16.hyp.knots:: x@.len() >= 2', 'C16.hyp.machine:: x@.len() < usize::MAX'],
              ensures=['C16.checked.valid:: x@.len() == y@.len() && (%s)' % SORTED,
                       'C16.checked.len:: r.v@.len() == tgt@.len()',
-                      'C16.checked.value:: forall|q: int| 0 <= q < tgt@.len() ==> interp_ok(x@, y@, tgt@[q], extrapolate, #[trigger] r.v@[q])'],
+                      'C16.checked.value:: increasing(x@) ==> forall|q: int| 0 <= q < tgt@.len() ==> interp_ok(x@, y@, tgt@[q], extrapolate, #[trigger] r.v@[q])'],
              panics={1: 'REJECT', 2: 'REJECT'},
              loops={1: {'invariant': ['n == x@.len()', 'n >= 2',
                                       'C16.checked.sorted.sofar:: forall|p: int| 0 <= p < i ==> rv(x@[p + 1]) - rv(#[trigger] x@[p]) >= 0real']}})
